@@ -22,6 +22,7 @@ import (
 	"strings"
 	"sync"
 	"syscall"
+	"testing"
 	"time"
 
 	"github.com/openGemini/openGemini/engine/comm"
@@ -764,18 +765,27 @@ func c02wRunHistory(rep *kit.Report, parent string, c c02wCase, fullFrom int, st
 	c02wInstallTap()
 	lastNames := ""
 	staleWal := ""     // WAL files seen while the memtable was empty (see fail)
+	mergeSelf := false // the step under way is MS
 	splitPath := false // the step under way is a streaming compaction that has to split a chunk (see c02wLayout.SeriesSegs)
 	fail := func(n int, kind, detail string) c02wEnd {
 		cc := c02wCase{Wide: true, Knobs: c.Knobs, Ops: append([]string(nil), c.Ops[:n]...)}
-		if staleWal != "" && strings.HasPrefix(kind, "wide_") && kind != "wide_stale_wal_file" {
+		// defect families with kinds of their own (the symptom goes to the detail)
+		switch {
+		case !strings.HasPrefix(kind, "wide_"):
+		case staleWal != "":
 			// a WAL file that a completed flush should have removed is still there (WAL.Switch can return before the
 			// writer of the last partition has handed over its file names: a race, so not reproducible at will); its rows
 			// are replayed by the next open as if they were the newest writes
-			kind = "wide_stale_wal_replay_" + strings.TrimPrefix(kind, "wide_")
-			detail += " [WAL files left behind by an earlier flush: " + staleWal + "]"
-		} else if splitPath && strings.HasPrefix(kind, "wide_") {
-			// one defect family with its own kinds: the split-chunk path of StreamIterators.compactColumn
-			kind = "wide_split_chunk_" + strings.TrimPrefix(kind, "wide_")
+			detail = "symptom " + kind + ": " + detail + " [WAL files left behind by an earlier flush: " + staleWal + "]"
+			kind = "wide_stale_wal_replay"
+		case splitPath:
+			// the split-chunk path of StreamIterators.compactColumn (a series with more segments than a chunk may hold)
+			detail = "symptom " + kind + ": " + detail
+			kind = "wide_stream_split_chunk"
+		case mergeSelf && kind == "wide_wrong_value":
+			// MergeSelf appends the chunks of a series in the order of their first timestamps, not of their files
+			detail = "symptom " + kind + ": " + detail
+			kind = "wide_merge_self_wrong_value"
 		}
 		if strings.HasPrefix(kind, "wide_") {
 			detail += " [data files: " + c02wListFiles(dir) + "; before the step: " + lastNames + "]"
@@ -804,6 +814,7 @@ func c02wRunHistory(rep *kit.Report, parent string, c c02wCase, fullFrom int, st
 		ce0, me0 := c02wErrCounters()
 		c02wTap.take()
 		lastNames = prev.Names
+		mergeSelf = op == "MS"
 		splitPath = (op == "LC" || op == "FC") && c.Knobs.Stream == 1 && c.Knobs.SegLimit > 0 && prev.SeriesSegs > c.Knobs.SegLimit
 		if err := c02wApply(v, m, op, i+1); err != nil {
 			return fail(i+1, "wide_op_error", fmt.Sprintf("op %s failed: %v", op, err))
@@ -946,21 +957,21 @@ func c02wExplore(rep *kit.Report, scratch string, p c02wPlan) {
 		if e.vio != nil {
 			// determinism: the failing history is run again, compared in full at every letter
 			e2 := c02wRunHistory(rep, dir, e.vio.replay, 0, false)
-			if strings.HasPrefix(e.vio.kind, "wide_stale_wal_replay_") {
-				// the cause is a race of the product (see fail): reported as observed, the second run is not a criterion
+			switch {
+			case e.vio.kind == "wide_stale_wal_replay":
+				// the cause is a race of the product (see c02wRunHistory): reported as observed, the second run is no criterion
 				rep.Violation(e.vio.kind, e.vio.key, e.vio.detail, e.vio.replay)
-			} else if e2.vio == nil || e2.vio.kind != e.vio.kind {
+			case e2.vio != nil && e2.vio.kind == e.vio.kind:
+				rep.Violation(e.vio.kind, e.vio.key, e.vio.detail, e.vio.replay)
+			case e.vio.kind == "wide_stream_split_chunk":
+				// that path's outcome depends on the state a pooled iterator was left in by earlier compactions
+				rep.Violation(e.vio.kind, e.vio.key, "(not reproduced by an immediate second run) "+e.vio.detail, e.vio.replay)
+			default:
 				second := "no violation"
 				if e2.vio != nil {
 					second = e2.vio.kind + " at " + e2.vio.key + ": " + e2.vio.detail
 				}
-				kind := "wide_not_reproducible"
-				if strings.HasPrefix(e.vio.kind, "wide_split_chunk_") {
-					kind = "wide_split_chunk_not_reproducible" // (that path's outcome depends on the state a pooled iterator was left in)
-				}
-				rep.Violation(kind, e.vio.key, "second run: "+second+" ||| first run: "+e.vio.kind+": "+e.vio.detail, e.vio.replay)
-			} else {
-				rep.Violation(e.vio.kind, e.vio.key, e.vio.detail, e.vio.replay)
+				rep.Violation("wide_not_reproducible", e.vio.key, "second run: "+second+" ||| first run: "+e.vio.kind+": "+e.vio.detail, e.vio.replay)
 			}
 			rep.Count("wide_failed_histories", 1)
 		}
@@ -1055,7 +1066,6 @@ func c02wPlans(thorough bool) []c02wPlan {
 	small := c02wKnobs{SegLimit: 2, FileSize: c02wTiny, MetaCount: 1}
 	smallS := small
 	smallS.Stream = 1
-	six := []c02wKnobs{{}, {Stream: 1}, {SegLimit: 2, MetaCount: 1}, {SegLimit: 2, MetaCount: 1, Stream: 1}, small, smallS}
 	memOps := append(c02wWrites(""), "F", "RO")
 	fileOps := append(c02wWrites("!"), "LC", "FC", "MO", "MS", "RO")
 	overOps := append(append(c02wWrites("!"), c02wWrites("")...), "RO")
@@ -1081,21 +1091,22 @@ func c02wPlans(thorough bool) []c02wPlan {
 	// out-of-order files among themselves: three flushed batches of series a give two out-of-order files
 	selfOps := []string{"Ra!", "Rb!", "Rc!", "Rd!", "Rg!", "MS", "MO", "LC", "RO"}
 	if !thorough {
+		five := []c02wKnobs{{}, {SegLimit: 2, MetaCount: 1}, {SegLimit: 2, MetaCount: 1, Stream: 1}, small, smallS}
 		return []c02wPlan{
-			{Name: "files", Doc: "flushed write batches and reorganisations", Depth: 4, MaxWrites: 2, Ops: fileOps, Knobs: six},
-			{Name: "mem", Doc: "unflushed write batches, flush, reopen", Depth: 3, Ops: memOps, Knobs: []c02wKnobs{{}, small}},
-			{Name: "over", Doc: "unflushed batches over flushed ones", Depth: 3, Ops: overOps, Allow: overAllow, Knobs: []c02wKnobs{{}, small}},
+			{Name: "files", Doc: "flushed write batches and reorganisations", Depth: 4, MaxWrites: 2, Ops: fileOps, Knobs: five},
 			{Name: "self", Doc: "three flushed batches of one series, merges of the out-of-order files", Depth: 5, MaxWrites: 3, Ops: selfOps,
-				Allow: c02wWritesFirst, Knobs: []c02wKnobs{{}, small, smallS}},
+				Allow: c02wWritesFirst, Knobs: []c02wKnobs{{}, smallS}},
+			{Name: "mem", Doc: "unflushed write batches, flush, reopen", Depth: 3, Ops: memOps, Knobs: []c02wKnobs{{}, small}},
+			{Name: "over", Doc: "unflushed batches over flushed ones", Depth: 3, Ops: overOps, Allow: overAllow, Knobs: []c02wKnobs{small}},
 		}
 	}
 	return []c02wPlan{
 		{Name: "files", Doc: "flushed write batches and reorganisations", Depth: 5, MaxWrites: 2, Ops: fileOps, Knobs: c02wKnobProduct()},
-		{Name: "mem", Doc: "unflushed write batches, flush, reopen", Depth: 4, Ops: memOps, Knobs: []c02wKnobs{{}, small}},
-		{Name: "over", Doc: "unflushed batches over flushed ones", Depth: 4, Ops: overOps, Allow: overAllow, Knobs: []c02wKnobs{{}, small, smallS}},
 		{Name: "self", Doc: "three flushed batches of one series, merges of the out-of-order files", Depth: 6, MaxWrites: 3, Ops: selfOps,
 			Allow: c02wWritesFirst, Knobs: []c02wKnobs{{}, small, smallS, {SegLimit: 2, FileSize: c02wTiny, MetaCount: 1, OOOFiles: 1},
 				{SegLimit: 2, FileSize: c02wTiny, MetaCount: 1, Stream: 1, SelfLevel: 1}, {SegLimit: 2, MetaCount: 1, MetaZip: 1}}},
+		{Name: "mem", Doc: "unflushed write batches, flush, reopen", Depth: 4, Ops: memOps, Knobs: []c02wKnobs{{}, small}},
+		{Name: "over", Doc: "unflushed batches over flushed ones", Depth: 4, Ops: overOps, Allow: overAllow, Knobs: []c02wKnobs{{}, small, smallS}},
 		{Name: "files3", Doc: "three flushed write batches and reorganisations", Depth: 5, MaxWrites: 3, Ops: fileOps, Knobs: []c02wKnobs{small, smallS}},
 	}
 }
@@ -1219,7 +1230,7 @@ func c02WideVolume(scratch, which string) *c02wViolation {
 	c02wInstallTap()
 	cc := c02wCase{Wide: true, Volume: which}
 	fail := func(kind, detail string) *c02wViolation {
-		return &c02wViolation{"wide_split_chunk_" + kind, c02wVolumeKey(which), detail, cc}
+		return &c02wViolation{"wide_stream_split_chunk", c02wVolumeKey(which), "symptom wide_" + kind + ": " + detail, cc}
 	}
 	c02wDirSeq++
 	dir := vMkdir(scratch, fmt.Sprintf("volume%07d", c02wDirSeq))
@@ -1360,4 +1371,56 @@ func c02WideVolume(scratch, which string) *c02wViolation {
 		return &c02wViolation{"harness_volume_case_not_compacted", c02wVolumeKey(which), "the full compaction did not change the layout: " + before, cc}
 	}
 	return nil
+}
+
+// TestVerifC02WalSwitchRace is a demonstration, not part of the check (run the C02 test binary with
+// -test.run TestVerifC02WalSwitchRace and VERIF_C02_WALRACE=<iterations>): WAL.Switch starts one goroutine per
+// partition; each reports completion (errs.Dispatch) *before* it hands over the names of the files it switched away
+// from (walFiles.Add), and Switch returns as soon as the last completion is reported. The caller (writeSnapshot)
+// removes exactly the files it finds in the returned set, so a file handed over late is never removed and is replayed
+// by the next open. The loop writes one record to every partition, switches, and counts the file names present at the
+// moment Switch returns.
+func TestVerifC02WalSwitchRace(t *testing.T) {
+	n := 0
+	fmt.Sscanf(kit.Getenv("VERIF_C02_WALRACE", "0"), "%d", &n)
+	if n == 0 {
+		t.Skip("demonstration only")
+	}
+	dir := t.TempDir()
+	lock := ""
+	const parts = 8
+	w := NewWAL(dir, &lock, 1, 0, true, false, parts, 0)
+	short, left := 0, 0
+	for it := 0; it < n; it++ {
+		for p := 0; p < parts; p++ {
+			if err := w.Write([]byte("0123456789abcdef"), WriteWalLineProtocol, int64(it)); err != nil {
+				t.Fatal(err)
+			}
+		}
+		files, err := w.Switch()
+		if err != nil {
+			t.Fatal(err)
+		}
+		files.mu.Lock()
+		got := len(files.files)
+		files.mu.Unlock()
+		if got < parts {
+			short++
+		}
+		_ = RemoveWalFiles(files)
+		time.Sleep(time.Millisecond) // let a late goroutine finish, then look at what the removal missed
+		left = 0
+		_ = filepath.Walk(dir, func(p string, info os.FileInfo, err error) error {
+			if err == nil && !info.IsDir() && strings.HasSuffix(p, ".wal") {
+				left++
+			}
+			return nil
+		})
+		if left > 0 {
+			t.Logf("iteration %d: Switch returned %d of %d file names; %d WAL file(s) still on disk after the removal", it, got, parts, left)
+			break
+		}
+	}
+	t.Logf("WAL.Switch returned an incomplete file set in %d of %d iterations; stale files at the end: %d", short, n, left)
+	_ = w.Close()
 }
